@@ -126,7 +126,40 @@ contract(TS + "run_single_timestep.py", "solution_single_time_step",
               % (_S("NewCond.th"), _S("init_cond.th"), SC, P)),
              ("C03.step_water_inv", W.WATER_INV("NewCond.th", P)),
              ("C03.step_ponding_nonneg", "NewCond.surface_storage >= 0"),
-             ("C07.step_row_index", "written(outputs.water_flux, 0)[0] == clock_struct.time_step_counter and {r}[0] == clock_struct.time_step_counter".replace("{r}", _ROW)),
+             ("C03.step_root_zone_storage_nonneg", "written(outputs.water_flux, 0)[1][3] >= 0"),
+             ("C03.step_fcadj_range", "forall(j, 0, n, param_struct.Soil.Profile.th_fc[j] <= NewCond.th_fc_Adj[j] and NewCond.th_fc_Adj[j] <= param_struct.Soil.Profile.th_s[j])"),
+             ("C07.step_row_index", "written(outputs.water_flux, 0)[0] == clock_struct.time_step_counter and written(outputs.water_flux, 0)[1][0] == clock_struct.time_step_counter"),
+             ("C07.step_rows_all_tables", "written(outputs.crop_growth, 0)[0] == clock_struct.time_step_counter and written(outputs.crop_growth, 0)[1][0] == clock_struct.time_step_counter "
+                                          "and written(outputs.water_storage, 0)[0] == clock_struct.time_step_counter and nwrites(outputs.water_flux) == 1 and nwrites(outputs.crop_growth) == 1"),
+             ("C07.step_dap_counts", "NewCond.dap == ite(NewCond.growing_season, old(init_cond.dap) + 1, 0) and written(outputs.water_flux, 0)[1][2] == NewCond.dap and written(outputs.crop_growth, 0)[1][2] == NewCond.dap"),
+             ("C07.step_growing_season_def", "NewCond.growing_season == (clock_struct.season_counter >= 0 and clock_struct.planting_dates[clock_struct.season_counter] <= clock_struct.step_start_time and "
+                                             "clock_struct.harvest_dates[clock_struct.season_counter] >= clock_struct.step_start_time and not old(init_cond.crop_mature) and not old(init_cond.crop_dead))"),
+             ("C02.step_partition", "written(outputs.water_flux, 0)[1][7] + written(outputs.water_flux, 0)[1][8] == weather_step[2] + ite(NewCond.growing_season and ite(clock_struct.season_counter >= 0, param_struct.IrrMngt.irrigation_method, param_struct.FallowIrrMngt.irrigation_method) != 4, written(outputs.water_flux, 0)[1][6] * (ite(clock_struct.season_counter >= 0, param_struct.IrrMngt.AppEff, param_struct.FallowIrrMngt.AppEff) / 100), 0)"),
+             ("C02.step_runoff_bounds", "0 <= written(outputs.water_flux, 0)[1][8] and written(outputs.water_flux, 0)[1][8] <= weather_step[2] + ite(NewCond.growing_season and ite(clock_struct.season_counter >= 0, param_struct.IrrMngt.irrigation_method, param_struct.FallowIrrMngt.irrigation_method) != 4, written(outputs.water_flux, 0)[1][6] * (ite(clock_struct.season_counter >= 0, param_struct.IrrMngt.AppEff, param_struct.FallowIrrMngt.AppEff) / 100), 0) + old(init_cond.surface_storage)"),
+             ("C02.step_infiltration_lower", "written(outputs.water_flux, 0)[1][7] >= -old(init_cond.surface_storage)"),
+             ("C04.step_flux_signs", "written(outputs.water_flux, 0)[1][8] >= 0 and written(outputs.water_flux, 0)[1][9] >= 0 and written(outputs.water_flux, 0)[1][10] >= 0 and written(outputs.water_flux, 0)[1][11] >= 0 and written(outputs.water_flux, 0)[1][12] >= 0 and written(outputs.water_flux, 0)[1][13] >= 0 and written(outputs.water_flux, 0)[1][14] >= 0 and written(outputs.water_flux, 0)[1][15] >= 0"),
+             ("C04.step_actual_le_potential", "written(outputs.water_flux, 0)[1][12] <= written(outputs.water_flux, 0)[1][13] and written(outputs.water_flux, 0)[1][14] <= written(outputs.water_flux, 0)[1][15]"),
+             ("C04.step_irrigation_nonneg", "implies(ite(clock_struct.season_counter >= 0, param_struct.IrrMngt.irrigation_method, param_struct.FallowIrrMngt.irrigation_method) != 4 or not NewCond.growing_season, written(outputs.water_flux, 0)[1][6] >= 0)"),
+             ("C04.step_zero_out_of_season", "implies(not NewCond.growing_season, written(outputs.water_flux, 0)[1][14] == 0 and written(outputs.water_flux, 0)[1][15] == 0 and written(outputs.water_flux, 0)[1][6] == 0)"),
+             ("C05.step_gdd", "implies(NewCond.growing_season, 0 <= written(outputs.crop_growth, 0)[1][3] and written(outputs.crop_growth, 0)[1][3] <= param_struct.Seasonal_Crop_List[clock_struct.season_counter].Tupp - param_struct.Seasonal_Crop_List[clock_struct.season_counter].Tbase and NewCond.gdd_cum == old(init_cond.gdd_cum) + written(outputs.crop_growth, 0)[1][3] and written(outputs.crop_growth, 0)[1][4] == NewCond.gdd_cum)"),
+             ("C05.step_zero_out_of_season", "implies(not NewCond.growing_season, NewCond.dap == 0 and NewCond.canopy_cover == 0 and NewCond.biomass == 0 and NewCond.DryYield == 0 and NewCond.FreshYield == 0 and NewCond.gdd_cum == 0)"),
+             ("C05.step_canopy", "0 <= NewCond.canopy_cover and NewCond.canopy_cover <= NewCond.canopy_cover_ns and written(outputs.crop_growth, 0)[1][6] == NewCond.canopy_cover and written(outputs.crop_growth, 0)[1][7] == NewCond.canopy_cover_ns"),
+             ("C05.step_biomass_nondecreasing", "implies(NewCond.growing_season, NewCond.biomass >= old(init_cond.biomass) and NewCond.biomass_ns >= old(init_cond.biomass_ns))"),
+             ("C05.step_hi_envelope", "implies(NewCond.growing_season, NewCond.harvest_index <= param_struct.Seasonal_Crop_List[clock_struct.season_counter].HI0 and NewCond.harvest_index_adj <= param_struct.Seasonal_Crop_List[clock_struct.season_counter].HI0 * (1 + param_struct.Seasonal_Crop_List[clock_struct.season_counter].dHI0 / 100))"),
+             ("C06.step_yields", "implies(NewCond.growing_season, NewCond.DryYield == NewCond.biomass / 100 * NewCond.harvest_index_adj and "
+                                 "NewCond.FreshYield == NewCond.DryYield / (param_struct.Seasonal_Crop_List[clock_struct.season_counter].YldWC / 100)) and NewCond.YieldPot == NewCond.biomass_ns / 100 * NewCond.harvest_index"),
+             ("C06.step_yield_row", "written(outputs.crop_growth, 0)[1][8] == NewCond.biomass and written(outputs.crop_growth, 0)[1][9] == NewCond.biomass_ns and written(outputs.crop_growth, 0)[1][10] == NewCond.harvest_index and written(outputs.crop_growth, 0)[1][11] == NewCond.harvest_index_adj and "
+                                    "written(outputs.crop_growth, 0)[1][12] == NewCond.DryYield and written(outputs.crop_growth, 0)[1][13] == NewCond.FreshYield and written(outputs.crop_growth, 0)[1][14] == NewCond.YieldPot"),
+             ("C06.step_biomass_gain", "implies(NewCond.growing_season, NewCond.biomass - old(init_cond.biomass) <= param_struct.Seasonal_Crop_List[clock_struct.season_counter].WP * param_struct.Seasonal_Crop_List[clock_struct.season_counter].fCO2 * (written(outputs.water_flux, 0)[1][14] / weather_step[3]) and "
+                                       "NewCond.biomass - old(init_cond.biomass) >= param_struct.Seasonal_Crop_List[clock_struct.season_counter].WP * (param_struct.Seasonal_Crop_List[clock_struct.season_counter].WPy / 100) * param_struct.Seasonal_Crop_List[clock_struct.season_counter].fCO2 * (written(outputs.water_flux, 0)[1][14] / weather_step[3]))"),
+             ("C06.step_seasonal_irrigation", "implies(NewCond.growing_season, ite(ite(clock_struct.season_counter >= 0, param_struct.IrrMngt.irrigation_method, param_struct.FallowIrrMngt.irrigation_method) == 4, NewCond.irr_net_cum == old(init_cond.irr_net_cum) + written(outputs.water_flux, 0)[1][6], NewCond.irr_cum == old(init_cond.irr_cum) + written(outputs.water_flux, 0)[1][6]))"),
+             ("C13.step_irrigation_limits", "implies(NewCond.growing_season and ite(clock_struct.season_counter >= 0, param_struct.IrrMngt.irrigation_method, param_struct.FallowIrrMngt.irrigation_method) != 4, written(outputs.water_flux, 0)[1][6] <= param_struct.IrrMngt.MaxIrr and NewCond.irr_cum <= max(param_struct.IrrMngt.MaxIrrSeason, old(init_cond.irr_cum)))"),
+             ("C13.step_rainfed_none", "implies(ite(clock_struct.season_counter >= 0, param_struct.IrrMngt.irrigation_method, param_struct.FallowIrrMngt.irrigation_method) == 0 or not NewCond.growing_season, written(outputs.water_flux, 0)[1][6] == 0)"),
+             ("C19.step_no_table", "implies(param_struct.water_table == 0, written(outputs.water_flux, 0)[1][10] == 0 and written(outputs.water_flux, 0)[1][11] == 0)"),
+             ("C19.step_table_depth", "implies(param_struct.water_table == 1, written(outputs.water_flux, 0)[1][4] == param_struct.z_gw[clock_struct.time_step_counter] and NewCond.z_gw == written(outputs.water_flux, 0)[1][4])"),
+             ("C19.step_saturated_below_table", "implies(param_struct.water_table == 1, forall(j, 0, n, implies(param_struct.Soil.Profile.zMid[j] >= NewCond.z_gw, NewCond.th[j] == param_struct.Soil.Profile.th_s[j])))"),
+             ("C07.step_maturity_flag", "implies(NewCond.growing_season and not old(init_cond.crop_mature), NewCond.crop_mature == "
+                                        "((param_struct.Seasonal_Crop_List[clock_struct.season_counter].CalendarType == 1 and NewCond.dap >= param_struct.Seasonal_Crop_List[clock_struct.season_counter].Maturity) or (param_struct.Seasonal_Crop_List[clock_struct.season_counter].CalendarType == 2 and NewCond.gdd_cum >= param_struct.Seasonal_Crop_List[clock_struct.season_counter].Maturity)))"),
          ],
          assigns=["init_cond.**", "outputs.**", "param_struct.Fallow_Crop.Aer", "param_struct.Fallow_Crop.Zmin"],
          options=dict(merge_limit=None),
